@@ -178,6 +178,7 @@ func (i *NetflowV5) netflowV5Worker(wQuit chan struct{}) {
 LOOP:
 	for {
 
+		vhook("Top", "netflow5", msg.body, nil)
 		netflowV5Buffer.Put(msg.body[:opts.NetflowV5UDPSize])
 		buf.Reset()
 
@@ -189,6 +190,7 @@ LOOP:
 				break LOOP
 			}
 		}
+		vhook("Deq", "netflow5", msg.body, nil)
 
 		if opts.Verbose {
 			logger.Printf("rcvd netflow v5 data from: %s, size: %d bytes",
@@ -204,6 +206,7 @@ LOOP:
 		}
 
 		atomic.AddUint64(&i.stats.DecodedCount, 1)
+		vhook("Dec", "netflow5", msg.body, nil)
 
 		if decodedMsg.Flows != nil {
 			b, err = decodedMsg.JSONMarshal(buf)
@@ -211,6 +214,7 @@ LOOP:
 				logger.Println(err)
 				continue
 			}
+			vhook("Mar", "netflow5", msg.body, b)
 
 			select {
 			case netflowV5MQCh <- append([]byte{}, b...):
